@@ -2,6 +2,7 @@
 """seedtest.py <patch.diff> <Cxx> [Cyy ...]  — apply a seeded change to /repo, run the quick checks,
 undo the change, print one line per property: DETECTED (with the VIOLATION line) or MISSED."""
 import subprocess, sys, os
+os.environ["VERIF_EVIDENCE_DIR"] = "/verif/.build/seed-evidence"
 patch = os.path.abspath(sys.argv[1])
 pids = sys.argv[2:]
 def sh(cmd, **kw):
